@@ -32,6 +32,7 @@ def run(ctx):
     skesk_decrypt(ctx, P)
     ring(ctx, P)
     subkey_search(ctx, P)
+    per_esk_key_status_reset(ctx, P)
     pkesk_identity(ctx, P)
     locked_flag_of_same_key(ctx, P)
     checksum_helpers(ctx, P)
@@ -449,3 +450,40 @@ def pkesk_identity(ctx, P):
         if any(adt == 'PublicKeyEncryptedSessionKey' and 'Other' in vs for adt, vs in ac):
             ok = True
     ctx.check(P + ':pkesk:other-never-matches', 'R-table', 'a PKESK of unknown version matches no key', ok, function=b.path)
+
+
+def per_esk_key_status_reset(ctx, P):
+    """`find_session_key` tries every presented key on EVERY public-key ESK; inside, the search through the subkeys of a key stops as
+    soon as `result.secret_keys[i] == Ok`.  That status must be the status for the ESK at hand: it is reset for each (ESK, key) pair
+    before the search, otherwise a key that opened an earlier ESK is never tried on a later one - and a later ESK that carries a
+    DIFFERENT session key for the same recipient (the conflict the caller asked to be told about) goes unnoticed.  No path leads from
+    the head of the per-key iteration to the `== Ok` test without passing an assignment of the status."""
+    b = None
+    for p, r in ctx.f.bodies.items():
+        if p.endswith('::find_session_key') and 'TheRing' in p:
+            b = ctx.wrap(r)
+    if b is None:
+        ctx.missing(P + ':ring:per-esk-status-reset', 'TheRing::find_session_key not found')
+        return
+    heads = [i for i, t in b.calls(r'Iterator::next$') if re.search(r'Enumerate<.*SignedSecretKey>', t['f'].get('selfty', '') or '')]
+    guards = [g for g, t in b.switches() if has_origin(b.switch_origins(g), r'callty:.*PartialEq::(eq|ne)@.*InnerRingResult')]
+    from rules.common import single_defs
+    defs = single_defs(b)
+    def is_status_slot(L):
+        d = defs.get(L)
+        return bool(d and d[1].get('k') == 'call' and re.search(r'IndexMut::index_mut$', d[1]['f'].get('fn', '') or '') and d[1]['args']
+                    and has_origin(b.operand_origins(d[1]['args'][0]), r'field:RingResult\.secret_keys$'))
+    resets = sorted(set(i for i, k, st in b.stmts(lambda st: st['d']['pr'] == ['*'] and is_status_slot(st['d']['l']))))
+    wit = None
+    for h in heads:
+        start = b.blocks[h]['t'].get('t')
+        if start is None:
+            continue
+        for g in guards:
+            if g in b.reach_from([start]):
+                w = b.find_path(start, {g}, removed=frozenset(resets) | frozenset([h]))
+                if w is not None:
+                    wit = w
+    ctx.check(P + ':ring:per-esk-status-reset', 'R-seq', 'the per-key status that ends the subkey search is assigned anew for every (ESK, key) pair before it is tested',
+              bool(heads) and bool(guards) and bool(resets) and wit is None, function=b.path, witness=fmt_path(b, wit) if wit else None,
+              missing=None if wit is None else 'the `== Ok` test of the subkey search is reachable from the head of the key iteration without an assignment of the status: the verdict of an earlier ESK stops the search for this one')
